@@ -110,7 +110,7 @@ def _check_species_q(case, ctx):
                 ctx.label('include_ZPE-without-vibrations-skipped')     # (documented AttributeError)
                 return
             kw = {'T': T, 'include_ZPE': case['include_ZPE']}
-        if q in ('S', 'G') and case['S_elements']:
+        if q in ('S', 'F', 'G') and case['S_elements']:      # (StatMech takes the option on all three)
             kw['S_elements'] = True
     else:
         from pmutt.mixture.cov import PiecewiseCovEffect
